@@ -300,7 +300,7 @@ func genE2E(r *vhlib.Rng, kind string) *E2E {
 		return nil
 	}
 	switch kind {
-	case "main", "malformed", "dupid", "big", "huge":
+	case "main", "malformed", "dupid", "big", "huge", "paged", "pagedwin":
 		assignResources(r, e, true, 15)
 	case "otlp":
 		assignResources(r, e, true, 45)
@@ -417,6 +417,91 @@ func genE2E0(r *vhlib.Rng, kind string) *E2E {
 			gs = append(gs, more...)
 		}
 		return finish(r, kind, gs, r.Intn(3))
+	case "paged", "pagedwin":
+		// more spans than one internal result page (1000) of the handlers, every span in its own OTLP request
+		// with its own ingest timestamp (no ties: from/size paging is deterministic), flushed into several
+		// blocks / segments whose edges are unrelated to the multiples of 1000, few blocks per fetch:
+		// the views must be EXACT.  paged: one trace of > 1000 (often > 2000) spans + small ones;
+		// pagedwin: many ordinary traces, > 1000 / > 2000 spans in the window
+		var gs []genSpan
+		total := 1001 + r.Intn(900)
+		if r.Chance(50) {
+			total = 2001 + r.Intn(700)
+		}
+		if kind == "paged" {
+			gs = genTrace(r, 1, 0x1000, traceOpt{n: total, shape: vhlib.Pick(r, []int{0, 0, 2, 3}), nsvc: 2 + r.Intn(3), startMs: 1})
+			for t := uint64(2); t <= 3; t++ {
+				gs = append(gs, genTrace(r, t, 0x100000*t, traceOpt{n: 2 + r.Intn(6), shape: r.Intn(4), nsvc: 3, startMs: t})...)
+			}
+		} else {
+			sb := uint64(0x1000)
+			for t := uint64(1); len(gs) < total; t++ {
+				n := 1 + r.Intn(14)
+				if r.Chance(10) {
+					n = 20 + r.Intn(60)
+				}
+				gs = append(gs, genTrace(r, t, sb, traceOpt{n: n, shape: r.Intn(4), nsvc: 1 + r.Intn(nSvc), skew: r.Chance(25), startMs: uint64(r.Intn(5000))})...)
+				sb += uint64(n) + 16
+			}
+		}
+		e := finish(r, kind, gs, r.Intn(3))
+		n := len(gs)
+		e.Sc.Batches = make([]int, n)
+		e.Sc.Layout = make([]int, n)
+		for i := range e.Sc.Batches {
+			e.Sc.Batches[i] = 1
+		}
+		for i, nb := 0, len(e.Sc.Batches); i < nb; { // block sizes 30..700 spans; a quarter of the block ends also end the segment
+			i += 30 + r.Intn(vhlib.Pick(r, []int{100, 300, 671}))
+			if i-1 < nb {
+				e.Sc.Layout[i-1] = 1
+				if r.Chance(25) {
+					e.Sc.Layout[i-1] = 2
+				}
+			}
+		}
+		e.Sc.OwnTs, e.Sc.FlushEach, e.Sc.Rotate = true, false, r.Chance(30)
+		e.Sc.Procs = vhlib.Pick(r, []int{1, 1, 2, 3})
+		e.Sc.Raw = []string{"*"}
+		if kind == "paged" {
+			e.Sc.Raw = append(e.Sc.Raw, tidHex(1))
+		}
+		if len(e.Sc.Gantt) > 3 {
+			e.Sc.Gantt = e.Sc.Gantt[:3]
+		}
+		return e
+	case "over11k":
+		// more spans in the window than the paged readers can reach: a search request with from > 10 000 is
+		// answered with an empty page (ParseAndExecutePipeRequest: isScrollMax), so the loops from = 0, 1000, ...
+		// stop after from = 10 000, i.e. after the newest 11 000 spans.  Two-span traces A -> B, one span per
+		// OTLP request (pairwise different timestamps)
+		var gs []genSpan
+		ntr := 5501 + r.Intn(300)
+		for t := 1; t <= ntr; t++ {
+			tr := genTrace(r, uint64(t), uint64(t)*16, traceOpt{n: 2, shape: 1, nsvc: 1, startMs: uint64(t)})
+			tr[0].setSvc(0)
+			tr[1].setSvc(1 + r.Intn(2))
+			gs = append(gs, tr...)
+		}
+		e := finish(r, kind, gs, 2)
+		n := len(gs)
+		e.Sc.Batches = make([]int, n)
+		e.Sc.Layout = make([]int, n)
+		for i := range e.Sc.Batches {
+			e.Sc.Batches[i] = 1
+		}
+		for i := 0; i < n; {
+			i += 300 + r.Intn(1500)
+			if i-1 < n {
+				e.Sc.Layout[i-1] = 1 + r.Intn(2)
+			}
+		}
+		e.Sc.OwnTs, e.Sc.FlushEach, e.Sc.Rotate = true, false, false
+		e.Sc.Procs = vhlib.Pick(r, []int{1, 2, 3})
+		e.Sc.Pages = 0 // no trace search (thousands of traces: more than a hundred search pages)
+		e.Sc.Gantt = e.Sc.Gantt[:2]
+		e.Sc.Raw = []string{"*"}
+		return e
 	case "huge": // one trace of more than 1000 spans (a partial span tree is acceptable)
 		n := 1001 + r.Intn(1500)
 		tr := genTrace(r, 1, 0x1000, traceOpt{n: n, shape: vhlib.Pick(r, []int{0, 2, 3}), nsvc: 4, startMs: 1})
@@ -585,6 +670,11 @@ func runWorker(dir string, e *E2E) (*WorkerObs, string) {
 	ctx, cancel := context.WithTimeout(context.Background(), 300*time.Second)
 	defer cancel()
 	cmd := exec.CommandContext(ctx, os.Args[0], "worker", filepath.Join(dir, "data"), sp, op)
+	if e.Sc.Procs > 0 {
+		// fetchRRCs takes runtime.GOMAXPROCS(0) blocks per fetch: with the default of a large machine the hits of
+		// every scenario reach the head / scroll stages as ONE batch; small values give several batches per query
+		cmd.Env = append(os.Environ(), fmt.Sprintf("GOMAXPROCS=%d", e.Sc.Procs))
+	}
 	out, err := cmd.CombinedOutput()
 	if ctx.Err() != nil {
 		return nil, "timeout"
@@ -684,6 +774,114 @@ func oracle(e *E2E, o *WorkerObs, sum *vhlib.Summary) {
 		}
 	}
 
+	// ---- ingest timestamps: from/size paging re-runs the query for every page and is deterministic only when
+	// no two hits share a timestamp (C05 paging_timestamp_ties); the stored events tell whether that is the case
+	tsOf := map[string]uint64{}
+	tsList, tsDistinct := spanTimestamps(e, o)
+	if e.dupIDs {
+		tsDistinct = false
+	}
+	if tsDistinct {
+		for i, x := range e.Sc.Spans {
+			tsOf[x.T+"/"+x.S] = tsList[i]
+		}
+	}
+	// a search request with from > 10 000 is answered with no hits, so the paged readers reach the newest
+	// 11 000 spans of the window only (known finding window_over_11000_spans_truncated): what they must then
+	// show is the exact view of those spans
+	const reach = 11000
+	spR := sp // the specification over the reachable spans
+	if total > reach && tsDistinct {
+		idx := make([]int, total)
+		for i := range idx {
+			idx[i] = i
+		}
+		sort.SliceStable(idx, func(a, b int) bool { return tsList[idx[a]] > tsList[idx[b]] })
+		var newest []Span
+		for _, i := range idx[:reach] {
+			newest = append(newest, e.Sc.Spans[i])
+		}
+		spR = newSpec(newest)
+	}
+	if total > 1000 {
+		if tsDistinct {
+			sum.Count("observed/over_1000_spans_pairwise_distinct_timestamps")
+		} else {
+			sum.Count("observed/over_1000_spans_shared_timestamps")
+		}
+	}
+
+	// ---- raw paged reads (the requests the handlers send): with pairwise different timestamps page k is exactly
+	// the slice [1000k, 1000k+1000) of the matching spans, newest first ----
+	for _, what := range e.Sc.Raw {
+		ro := o.Raw[what]
+		if ro == nil || hp("paged read of "+what, ro.Err) {
+			continue
+		}
+		if ro.Err != "" {
+			fail("span_pages_error", "paged read of "+what+": "+ro.Err)
+			continue
+		}
+		if !tsDistinct {
+			continue
+		}
+		var want []string
+		for _, x := range e.Sc.Spans {
+			if what == "*" || x.T == what {
+				want = append(want, x.T+"/"+x.S)
+			}
+		}
+		sort.SliceStable(want, func(i, j int) bool { return tsOf[want[i]] > tsOf[want[j]] })
+		if len(want) > reach {
+			if len(ro.Pages) == reach/1000 {
+				fail("window_over_11000_spans_truncated", fmt.Sprintf("search %q over %d matching spans read in pages of 1000 until an empty page: the request from=%d is answered with no hits (scroll limit 10 000), %d spans are never read", what, len(want), reach, len(want)-reach))
+			}
+			want = want[:reach]
+		}
+		got := 0
+		for k, pg := range ro.Pages {
+			lo, hi := 1000*k, 1000*k+1000
+			if lo > len(want) {
+				lo = len(want)
+			}
+			if hi > len(want) {
+				hi = len(want)
+			}
+			got += len(pg)
+			ok := len(pg) == hi-lo
+			for i := 0; ok && i < len(pg); i++ {
+				ok = pg[i] == want[lo+i]
+			}
+			if !ok {
+				first := ""
+				if len(pg) > 0 {
+					first = pg[0]
+				}
+				fail("span_page_not_the_from_size_slice", fmt.Sprintf("search %q over %d matching spans with pairwise different timestamps in %d blocks (GOMAXPROCS=%d): page from=%d size=1000 holds %d spans (first %s), expected the %d spans %d..%d in newest-first order (first %s); pages read: %v",
+					what, len(want), e.blocks(), e.Sc.Procs, 1000*k, len(pg), first, hi-lo, lo, hi-1, want[lo:][:min(1, hi-lo)], pageSizes(ro.Pages)))
+				break
+			}
+		}
+		if got < len(want) && len(ro.Pages) <= (len(want)+999)/1000 {
+			all := map[string]bool{}
+			for _, pg := range ro.Pages {
+				for _, k := range pg {
+					all[k] = true
+				}
+			}
+			miss := 0
+			for _, k := range want {
+				if !all[k] {
+					miss++
+				}
+			}
+			if miss > 0 {
+				fail("span_pages_lose_spans", fmt.Sprintf("search %q read in pages of 1000 until an empty page (page sizes %v): %d of %d matching spans (pairwise different timestamps, %d blocks, GOMAXPROCS=%d) are in no page",
+					what, pageSizes(ro.Pages), miss, len(want), e.blocks(), e.Sc.Procs))
+			}
+		}
+	}
+
 	// ---- search ----
 	listed := map[string]int{}
 	aborted := false
@@ -735,7 +933,9 @@ func oracle(e *E2E, o *WorkerObs, sum *vhlib.Summary) {
 			}
 		}
 	}
-	if aborted {
+	if e.Sc.Pages == 0 {
+		// no search page requested (over11k)
+	} else if aborted {
 		if multiRootDiffStart != "" {
 			fail("search_aborted_by_multi_root_trace", fmt.Sprintf("trace search answers 500 for the whole page (%d traces) because trace %s has two roots with different start/end times", len(sp.tids), multiRootDiffStart), multiRootDiffStart)
 		} else {
@@ -826,6 +1026,17 @@ func oracle(e *E2E, o *WorkerObs, sum *vhlib.Summary) {
 		}
 		if wf && len(tr) > 1000 && len(seen) < len(tr) {
 			sum.Count("observed/gantt_partial_view_over_1000_spans")
+			if tsDistinct {
+				// no two spans share an ingest timestamp: the pages of the handler are disjoint and cover the trace, so the
+				// view of a WELL-FORMED trace must be complete (the partial view the text tolerates is for malformed traces
+				// and for pages that overlap because of timestamp ties)
+				for _, x := range tr {
+					if seen[x.S] == 0 {
+						fail("span_tree_missing_span_paged", fmt.Sprintf("trace %s (well formed, %d spans with pairwise different ingest timestamps, %d blocks, GOMAXPROCS=%d; the handler reads it in pages of 1000): span %s is not in the tree (%d nodes)", t, len(tr), e.blocks(), e.Sc.Procs, x.S, len(seen)), t)
+						break
+					}
+				}
+			}
 		}
 		if wf && len(tr) <= 1000 {
 			for _, x := range tr {
@@ -843,10 +1054,16 @@ func oracle(e *E2E, o *WorkerObs, sum *vhlib.Summary) {
 			fail("dep_graph_error", o.DepErr)
 		} else if !e.dupIDs {
 			want := sp.exactDep()
-			if !depEqual(want, o.Dep) {
+			if total > reach && tsDistinct && !depEqual(want, o.Dep) && depEqual(spR.exactDep(), o.Dep) {
 				wj, _ := json.Marshal(want)
 				oj, _ := json.Marshal(o.Dep)
-				if total > 1000 {
+				fail("window_over_11000_spans_truncated", fmt.Sprintf("%d spans in the window (pairwise different timestamps): dependency graph %s = the exact graph of the newest %d spans; exact parent-child pairs of the window %s", total, trunc(string(oj), 200), reach, trunc(string(wj), 200)))
+			} else if !depEqual(want, o.Dep) {
+				wj, _ := json.Marshal(want)
+				oj, _ := json.Marshal(o.Dep)
+				if total > 1000 && tsDistinct {
+					fail("dep_graph_wrong_paged", fmt.Sprintf("%d spans in the window with pairwise different ingest timestamps (%d blocks, GOMAXPROCS=%d; read in pages of 1000): dependency graph %s, exact parent-child pairs %s", total, e.blocks(), e.Sc.Procs, trunc(string(oj), 200), trunc(string(wj), 200)))
+				} else if total > 1000 {
 					fail("dep_graph_paging_over_1000_spans", fmt.Sprintf("%d spans in the window (read in pages of 1000): dependency graph %s, exact parent-child pairs %s", total, trunc(string(oj), 200), trunc(string(wj), 200)))
 				} else if total > 100 && e.Kind != "crossjoin" {
 					fail("dep_graph_first_page_only", fmt.Sprintf("%d spans in the window: dependency graph %s, exact parent-child pairs %s", total, trunc(string(oj), 200), trunc(string(wj), 200)))
@@ -865,7 +1082,22 @@ func oracle(e *E2E, o *WorkerObs, sum *vhlib.Summary) {
 			fail("red_error", o.RedErr)
 		} else if !e.dupIDs {
 			want := sp.exactRed()
+			truncated := false
+			if total > reach && tsDistinct {
+				// compare with the exact RED of the newest 11 000 spans; a difference from the RED of the whole window
+				// is then the known truncation, anything else is reported in the ordinary classes
+				want = spR.exactRed()
+				full := sp.exactRed()
+				for svc, w := range full {
+					if t := want[svc]; t == nil || t.cnt != w.cnt || t.errs != w.errs {
+						truncated = true
+					}
+				}
+			}
 			cls := func(c string) string {
+				if total > 1000 && tsDistinct {
+					return c + "_paged" // pairwise different timestamps: the pages are disjoint and complete, RED must be exact
+				}
 				if total > 1000 {
 					return "red_paging_over_1000_spans"
 				}
@@ -874,41 +1106,86 @@ func oracle(e *E2E, o *WorkerObs, sum *vhlib.Summary) {
 				}
 				return c
 			}
+			pfx := ""
+			if total > 1000 && tsDistinct {
+				pfx = fmt.Sprintf("%d spans in the 5-minute window with pairwise different ingest timestamps (%d blocks, GOMAXPROCS=%d; read in pages of 1000): ", total, e.blocks(), e.Sc.Procs)
+			}
+			rfail := func(c, d string) { fail(cls(c), pfx+d) }
+			if truncated {
+				ok := len(o.Red) == len(want)
+				n := 0
+				for _, ro := range o.Red {
+					if w := want[ro.Service]; w == nil || !closeTo(ro.Rate, big.NewRat(int64(w.cnt), 60)) {
+						ok = false
+					} else {
+						n += w.cnt
+					}
+				}
+				if ok {
+					all := 0
+					for _, w := range sp.exactRed() {
+						all += w.cnt
+					}
+					fail("window_over_11000_spans_truncated", fmt.Sprintf("%d spans in the 5-minute window (pairwise different timestamps): the RED records count %d entry spans = those of the newest %d spans; the window has %d entry spans", total, n, reach, all))
+				}
+			}
 			got := map[string]RedObs{}
 			for _, ro := range o.Red {
 				if _, dup := got[ro.Service]; dup {
-					fail(cls("red_service_duplicate"), "service "+ro.Service+" has two RED records")
+					rfail("red_service_duplicate", "service "+ro.Service+" has two RED records")
 				}
 				got[ro.Service] = ro
 			}
 			for svc, w := range want {
 				g, ok := got[svc]
 				if !ok {
-					fail(cls("red_service_missing"), fmt.Sprintf("no RED record for service %s (%d entry spans)", svc, w.cnt))
+					rfail("red_service_missing", fmt.Sprintf("no RED record for service %s (%d entry spans)", svc, w.cnt))
 					continue
 				}
 				if !closeTo(g.Rate, big.NewRat(int64(w.cnt), 60)) {
-					fail(cls("red_rate_wrong"), fmt.Sprintf("service %s: rate %v, %d entry spans / 60", svc, g.Rate, w.cnt))
+					rfail("red_rate_wrong", fmt.Sprintf("service %s: rate %v, %d entry spans / 60", svc, g.Rate, w.cnt))
 				}
 				if !closeTo(g.ErrRate, big.NewRat(int64(w.errs*100), int64(w.cnt))) {
-					fail(cls("red_error_rate_wrong"), fmt.Sprintf("service %s: error_rate %v, %d of %d entry spans have status error", svc, g.ErrRate, w.errs, w.cnt))
+					rfail("red_error_rate_wrong", fmt.Sprintf("service %s: error_rate %v, %d of %d entry spans have status error", svc, g.ErrRate, w.errs, w.cnt))
 				}
 				for _, pp := range []struct {
 					p int
 					v float64
 				}{{50, g.P50}, {90, g.P90}, {95, g.P95}, {99, g.P99}} {
 					if ws := pctSpec(w.durMs, pp.p); !closeTo(pp.v, ws) {
-						fail(cls("percentile_wrong"), fmt.Sprintf("service %s: p%d %v, want %s over %d entry spans", svc, pp.p, pp.v, ws.FloatString(4), w.cnt))
+						rfail("percentile_wrong", fmt.Sprintf("service %s: p%d %v, want %s over %d entry spans", svc, pp.p, pp.v, ws.FloatString(4), w.cnt))
 					}
 				}
 			}
 			for svc := range got {
 				if want[svc] == nil {
-					fail(cls("red_service_unexpected"), "RED record for service "+svc+" which has no entry span")
+					rfail("red_service_unexpected", "RED record for service "+svc+" which has no entry span")
 				}
 			}
 		}
 	}
+}
+
+// number of blocks the spans were flushed into (0: not a layout scenario)
+func (e *E2E) blocks() int {
+	n := 0
+	for _, l := range e.Sc.Layout {
+		if l >= 1 {
+			n++
+		}
+	}
+	if len(e.Sc.Layout) > 0 && e.Sc.Layout[len(e.Sc.Layout)-1] == 0 {
+		n++
+	}
+	return n
+}
+
+func pageSizes(p [][]string) []int {
+	out := make([]int, len(p))
+	for i := range p {
+		out[i] = len(p[i])
+	}
+	return out
 }
 
 // ---------- Coq case text ----------
@@ -1120,12 +1397,14 @@ func streamE2E(cfg vhlib.Config, r *vhlib.Rng, sum *vhlib.Summary) {
 		kind string
 		n    int
 	}{{"main", 36}, {"otlp", 10}, {"malformed", 26}, {"dupid", 8}, {"big", 2}, {"huge", 2},
-		{"deppage", 2}, {"multiroot", 2}, {"crossjoin", 2}, {"manytraces", 2}, {"numid", 2}} // the last five: known-defect classes, own generator streams
+		{"deppage", 2}, {"multiroot", 2}, {"crossjoin", 2}, {"manytraces", 2}, {"numid", 2}, // these five: known-defect classes, own generator streams
+		{"paged", 2}, {"pagedwin", 1}, // more than one internal result page of spans, pairwise different timestamps: exact views
+		{"over11k", 1}} // known class: more spans in the window than the paged readers reach (from <= 10 000)
 	if cfg.Thorough() {
 		plan = []struct {
 			kind string
 			n    int
-		}{{"main", 600}, {"otlp", 200}, {"malformed", 500}, {"dupid", 150}, {"big", 60}, {"huge", 40}, {"deppage", 10}, {"multiroot", 10}, {"crossjoin", 10}, {"manytraces", 10}, {"numid", 10}}
+		}{{"main", 600}, {"otlp", 200}, {"malformed", 500}, {"dupid", 150}, {"big", 60}, {"huge", 40}, {"deppage", 10}, {"multiroot", 10}, {"crossjoin", 10}, {"manytraces", 10}, {"numid", 10}, {"paged", 14}, {"pagedwin", 10}, {"over11k", 3}}
 	}
 	var all []*E2E
 	for _, p := range plan {
@@ -1140,7 +1419,12 @@ func streamE2E(cfg vhlib.Config, r *vhlib.Rng, sum *vhlib.Summary) {
 	sem := make(chan struct{}, 6)
 	root, _ := os.MkdirTemp("/tmp", "C12_e2e_")
 	defer os.RemoveAll(root)
-	for i := range all {
+	launch := make([]int, len(all)) // the long scenarios first (their workers run for 5-20 s), so that they do not form the tail of the stream
+	for i := range launch {
+		launch[i] = i
+	}
+	sort.SliceStable(launch, func(a, b int) bool { return len(all[launch[a]].Sc.Spans) > len(all[launch[b]].Sc.Spans) })
+	for _, i := range launch {
 		wg.Add(1)
 		sem <- struct{}{}
 		go func(i int) {
@@ -1186,6 +1470,15 @@ func streamE2E(cfg vhlib.Config, r *vhlib.Rng, sum *vhlib.Summary) {
 			continue
 		}
 		oracle(e, obs[i], sum)
+		if len(e.Sc.Spans) > 1000 && !e.noCoq {
+			// the raw paged reads of a scenario without timestamp ties against the model's pages
+			if d, n := coqPaged(i, e, obs[i]); n > 0 {
+				defs.WriteString(d)
+				exprs = append(exprs, fmt.Sprintf("map (fun i => %d + N.of_nat i) (indices_false c%d 0)", 1000*i, i))
+				nfile += n
+				size += len(d)
+			}
+		}
 		if len(e.Sc.Spans) > 1000 || e.noCoq {
 			continue // a >1000-span forest is checked by the oracle only (its paged views are not a function of the span set; Coq list literals of that size overflow the stack)
 		}
